@@ -526,8 +526,10 @@ impl<Octs: Octets> Capability<Octs> {
                 parser.advance(len)?;
             },
             CapabilityType::PathsLimit => {
-                // As long as this Capability is not stable, jump over it
-                let len = parser.parse_u8()? as usize;
+                // As long as this Capability is not stable, jump over it.
+                // Its value is a list of (AFI, SAFI, Paths Limit) tuples
+                // (draft-abraitis-idr-addpath-paths-limit) and does not
+                // start with a length octet.
                 parser.advance(len)?;
             },
             CapabilityType::PrestandardRouteRefresh => {
